@@ -200,6 +200,8 @@ def level_call(prog, f, t):
     t = pm.strip(t)
     if t[0] == "proj" and last(t[2]) == "Ok" and t[3] == 0:
         t = pm.strip(t[1])
+    while t[0] == "hof" and t[1] == "map_err":
+        t = pm.strip(t[2])            # only the error value is converted (a private error type turned into the message)
     if t[0] in ("call", "rec") and isinstance(t[1], str) and len(t[2]) == 1:
         g = prog.resolve_local(f.crate, t[1])
         if g is not None and (is_level_fn(g) or g.name == "parse_hctl_tokens"):
